@@ -19,6 +19,7 @@ ASSUMPTIONS = ["drop = target_drop column; the target height is the one the resu
                "monotonicity compares row indices of begin/end for increasing heights at the same range"]
 
 DIST = ref.UNITS_BY_DIM["distance"]
+DELIBERATE = (ArithmeticError, ValueError, LookupError)   # "raises an error": any deliberate error type
 
 
 @st.composite
@@ -40,13 +41,15 @@ def _case(draw):
     return {"shot": spec, "R": R, "zero_ft": zero_ft, "step": R / n, "queries": qs, "beyond_ft": beyond,
             "extra_time": draw(st.sampled_from([0.0, 0.0, 0.1])),
             # the request itself in a generated unit (metric steps accumulate a few ulp), and a query at exactly that range
-            "fire_unit": draw(st.sampled_from(["Foot", "Meter", "Meter", "Yard", "Centimeter", "Kilometer"])), "n": n}
+            "fire_unit": draw(st.sampled_from(["Foot", "Meter", "Meter", "Yard", "Centimeter", "Kilometer"])), "n": n,
+            # the preferred distance unit in force while the queries are made (bare numbers are read in it)
+            "pref": draw(st.sampled_from([None, None, "Meter", "Foot", "Kilometer", "Inch"]))}
 
 
-def _q(ft, unit):
+def _q(ft, unit, pref=None):
     """a range of `ft` feet given in `unit`, or as a bare number (preferred distance unit, yard at defaults)"""
     if unit is None:
-        return ref.convert(ft, "Foot", "Yard")
+        return ref.convert(ft, "Foot", pref or "Yard")
     return Unit[unit](ref.convert(ft, "Foot", unit))
 
 
@@ -74,7 +77,23 @@ def check(case):
     n = len(rows)
     if n < 3:
         return r
+    pref = case.get("pref")
+    if pref:
+        pb.PreferredUnits.distance = Unit[pref]
+        r.label("preferred-distance-changed")
     idx = {id(row): i for i, row in enumerate(rows)}
+    raws = None
+
+    def _index(row):
+        """index of a returned row in the trajectory: the row object itself, or (were the result to hand out copies) the
+        first row with the same content"""
+        nonlocal raws
+        i = idx.get(id(row))
+        if i is None:
+            raws = raws or build.rows_raw(rows)
+            rr = build.row_raw(row)
+            i = next((k for k, x in enumerate(raws) if x == rr), None)
+        return i
     drops = [row.target_drop.raw_value for row in rows]
     apex = max(range(n), key=lambda i: drops[i])
     nt = False
@@ -86,23 +105,24 @@ def check(case):
             if q["look"] is not None:
                 kw["look_angle"] = pb.Angular.Radian(q["look"])
             if q.get("decoy_unit"):
-                arg = _q(at_ft, q["unit"])
+                arg = _q(at_ft, q["unit"], pref)
                 number = arg if q["unit"] is None else arg.unit_value
                 hit.index_at_distance(Unit[q["decoy_unit"]](number))
                 try:
                     hit.get_at_distance(Unit[q["decoy_unit"]](number))
-                except ArithmeticError:
+                except DELIBERATE:
                     pass
-            ds = hit.danger_space(_q(at_ft, q["unit"]), D.Inch(h_in), **kw)
+            ds = hit.danger_space(_q(at_ft, q["unit"], pref), D.Inch(h_in), **kw)
             half = ds.target_height.raw_value / 2.0
             if abs(ds.target_height.raw_value - h_in) > 1e-9 * h_in:
                 r.bad("C16:target-height-misread", f"explicit target height {h_in!r} in reported as {ds.target_height.raw_value!r} in")
-            ia, ib, ie = idx.get(id(ds.at_range)), idx.get(id(ds.begin)), idx.get(id(ds.end))
+            ia, ib, ie = _index(ds.at_range), _index(ds.begin), _index(ds.end)
             if ia is None or ib is None or ie is None:
                 r.bad("C16:bound-not-a-trajectory-row", f"query {q}: a returned row is not a row of the trajectory")
                 break
             # the target row: first row at or beyond the requested range (as the library read the request)
-            req_raw = (pb.PreferredUnits.distance(_q(at_ft, q["unit"]))).raw_value if q["unit"] is None else _q(at_ft, q["unit"]).raw_value
+            # (a bare number is a number of the preferred distance unit in force now - constructed explicitly here)
+            req_raw = Unit[pref or "Yard"](_q(at_ft, None, pref)).raw_value if q["unit"] is None else _q(at_ft, q["unit"]).raw_value
             exp_a = next((i for i in range(n) if rows[i].distance.raw_value >= req_raw), -1)
             if ia != exp_a:
                 r.bad("C16:target-row", f"query {q}: target row index {ia}, first row at or beyond the range is {exp_a}")
@@ -144,14 +164,14 @@ def check(case):
         exp_a = next((i for i in range(n) if rows[i].distance.raw_value >= req.raw_value), -1)
         try:
             ds = hit.danger_space(Unit[fu](rng_val), D.Inch(20.0))
-            ia, ib, ie = idx.get(id(ds.at_range)), idx.get(id(ds.begin)), idx.get(id(ds.end))
+            ia, ib, ie = _index(ds.at_range), _index(ds.begin), _index(ds.end)
             if exp_a < 0:
                 r.bad("C16:beyond-trajectory-accepted", f"request {rng_val!r} {fu}: the last row is at {rows[-1].distance.raw_value!r} in < {req.raw_value!r} in, "
                       f"yet a danger space was returned (target row {ia}, begin {ib}, end {ie})")
             elif ia != exp_a or ib is None or ie is None or not (ib <= ia <= ie):
                 r.bad("C16:bounds-do-not-bracket-target", f"request at the fired range {rng_val!r} {fu}: target row {ia} (expected {exp_a}), begin {ib}, end {ie}")
             r.label("at-fired-range:returned")
-        except ArithmeticError:
+        except DELIBERATE:
             if exp_a >= 0:
                 r.bad("C16:target-row", f"request at the fired range {rng_val!r} {fu} raised although row {exp_a} reaches it")
             r.label("at-fired-range:raised")
@@ -159,8 +179,8 @@ def check(case):
     for u in (None, "Meter"):
         try:
             hit.index_at_distance(D.Foot(max(case["beyond_ft"], rows[-1].distance.raw_value / 12.0 + 10.0) / (3.0 if u is None else 0.3048)))
-            hit.danger_space(_q(max(case["beyond_ft"], rows[-1].distance.raw_value / 12.0 + 10.0), u), D.Inch(10.0))
-        except ArithmeticError:
+            hit.danger_space(_q(max(case["beyond_ft"], rows[-1].distance.raw_value / 12.0 + 10.0), u, pref), D.Inch(10.0))
+        except DELIBERATE:
             continue
         r.bad("C16:beyond-trajectory-accepted", f"asking {case['beyond_ft']!r} ft beyond a trajectory ending at {rows[-1].distance.raw_value / 12.0!r} ft returned a result")
     r.nontrivial = nt
